@@ -1,6 +1,7 @@
 package universal
 
 import (
+	"math"
 	"context"
 	"encoding/json"
 	"fmt"
@@ -54,10 +55,24 @@ func shippedExt(name string) (graphql.HandlerExtension, error) {
 			return nil, err
 		}
 		return extension.FixedComplexityLimit(n), nil
+	case name == "unserializable":
+		return unserializableExt{}, nil
 	case name == "apq":
 		return extension.AutomaticPersistedQuery{Cache: graphql.MapCache[string]{}}, nil
 	}
 	return nil, fmt.Errorf("unknown shipped extension %q", name)
+}
+
+// unserializableExt is user code, not a shipped extension: a response interceptor that registers a response extension
+// encoding/json refuses to marshal (a ratio 0/0 = NaN). What the transports do with a response they cannot serialize
+// must still end the request and leave nothing running.
+type unserializableExt struct{}
+
+func (unserializableExt) ExtensionName() string                   { return "verif-unserializable-extension" }
+func (unserializableExt) Validate(graphql.ExecutableSchema) error { return nil }
+func (unserializableExt) InterceptResponse(ctx context.Context, next graphql.ResponseHandler) *graphql.Response {
+	graphql.RegisterExtension(ctx, "hitRatio", math.NaN())
+	return next(ctx)
 }
 
 // useShipped installs the named shipped extensions, in the order given
